@@ -12,7 +12,7 @@ import (
 
 // Op is one step of a history. V indexes the list of live views (0 = the root).
 type Op struct {
-	Kind string // slice rslice get set apply apply1 applySlice copyFrom
+	Kind string // slice rslice get set apply apply1 applySlice copyFrom unroll
 	V    int
 	Loc  []int `json:",omitempty"`
 	Dims []int `json:",omitempty"`
@@ -67,7 +67,7 @@ func Gen(t *rapid.T) Case {
 		rank := len(mv.Shape)
 		kinds := []string{"get", "set", "set", "slice", "slice"}
 		if !mv.RankReduced() {
-			kinds = append(kinds, "apply", "apply", "applySlice", "applySlice", "copyFrom")
+			kinds = append(kinds, "apply", "apply", "applySlice", "applySlice", "copyFrom", "unroll")
 			if rank == 1 {
 				kinds = append(kinds, "apply1", "apply1")
 			}
@@ -270,6 +270,29 @@ func Exec(c Case, trace *[]string) (r pbt.Result) {
 			}
 			if nm.Depth >= 2 && nm.Stepd {
 				r.Label("depth>=2-stepped-view")
+			}
+		case "unroll":
+			// a bulk read through a view OBJECT that the history keeps: whatever the object remembers between calls
+			// (its layout, what it was asked before) must not outlive writes made through any other view, nor be
+			// handed on to the views sliced from it afterwards
+			var got []float64
+			var contig bool
+			perr = guarded(func() { contig = rv.Contiguous(); got = rv.Unroll() })
+			if perr == "" {
+				k := 0
+				vm.Each(mv.Shape, func(idx []int) {
+					if r.Fail == "" && (k >= len(got) || got[k] != mv.Get(idx)) {
+						r.Failf("op %d: Unroll of view %d (depth %d, stepped=%v, contiguous=%v): position %d (element %v) does not read the model's %v (unrolled %v)", si, op.V, mv.Depth, mv.Stepd, contig, k, idx, mv.Get(idx), got)
+					}
+					k++
+				})
+				if r.Fail == "" && k != len(got) {
+					r.Failf("op %d: Unroll of view %d has %d values, the view %d elements", si, op.V, len(got), k)
+				}
+			}
+			r.Label("unroll-in-history")
+			if si+1 < len(c.Ops) {
+				r.Label("unroll-then-more-ops")
 			}
 		case "get":
 			want := mv.Get(op.Loc)
